@@ -52,6 +52,7 @@ def run(ctx):
         check_arm_purity(ctx, "E2-A", P, [f])
         SP.check_variant_preserved(ctx, "E2.variant", P, f, "AggregateSignature")
         allow_skip = {(fk, "skip"): "skip(1): element 0 is added separately on the exits"} if (cov == ["tail1"] and len(adds0) >= 1) else {}
+        allow_skip[(fk, "windows")] = "windows(2): adjacent pairs compared (scheme consistency; validated by E4.scheme)"
         F.check_no_dropping_adapters(ctx, "E7.adapters", P, [fk], allow=allow_skip)
     # verify wrapper
     v = ctx.need_fn("E2-A", "AggregateSignature<C>::verify")
@@ -137,6 +138,7 @@ def check_basic_uniqueness(ctx, P):
     dd = [(b, s) for b, s in ev.sites.items() if s.callee[0].endswith("::dedup") or s.callee[0].endswith("::dedup_by_key") or s.callee[0].endswith("::dedup_by")]
     sorts = [(b, s) for b, s in ev.sites.items() if "::sort" in s.callee[0]]
     errs = R.err_blocks(f)
+    scan_allow = {}
     if ins:
         b, s = ins[0]
         key = strip_sites(s.args[1])
@@ -179,10 +181,66 @@ def check_basic_uniqueness(ctx, P):
         ctx.ob("E4.unique", fk + "/dedup", sorted_first and bool(errs), "uniqueness by dedup: %s" % ("preceded by a sort" if sorted_first else "`dedup` only removes ADJACENT duplicates and the list is not sorted first"), where=where(f, b))
     elif _pipeline_uniqueness(ctx, P, f, ev, fk):
         pass
+    elif _scan_uniqueness(ctx, P, f, ev, fk, errs, scan_allow):
+        pass
     else:
         ctx.ob("E4.unique.anchor", fk, False, "no message-uniqueness mechanism (set/map insert, or sort+dedup) found in the Basic aggregate_verify (missing anchor)", where=where(f))
-    F.check_no_dropping_adapters(ctx, "E7.adapters", P, [fk], allow={})
+    F.check_no_dropping_adapters(ctx, "E7.adapters", P, [fk], allow=scan_allow)
 
+
+
+def _scan_uniqueness(ctx, P, f, ev, fk, errs, allow):
+    """Uniqueness by comparing each new message with the ones already accepted: inside the loop over the entries a search
+    (`position` / `any` / `find` / `contains`) runs over the very vector that every accepted entry is pushed to, its closure
+    tests equality between the stored message and the current one, a hit leaves through Err, and every other way round the
+    loop pushes the current entry."""
+    cfg = f.cfg
+    for b, s in sorted(ev.sites.items()):
+        nm = s.callee[0]
+        if nm not in ("Iterator::position", "Iterator::any", "Iterator::find", "slice::<impl [T]>::contains") or len(s.args) != 2:
+            continue
+        src = B.peel(s.args[0])
+        k = 0
+        while src.op == "call" and len(src.a[1]) >= 1 and B.cname(src) in ("slice::<impl [T]>::iter", "IntoIterator::into_iter", "Vec::<T, A>::as_slice", "Deref::deref", "AsRef::as_ref", "Iterator::enumerate") and k < 6:
+            src = B.peel(src.a[1][0])
+            k += 1
+        if src.op != "loop":
+            continue
+        hdr, loc = src.a[0], src.a[1]
+        body = set()
+        latches = [sb for sb, h in cfg.back_edges() if h == hdr]
+        for sb in latches:
+            body |= set(cfg.natural_loop(sb, hdr))
+        if b not in body:
+            continue
+        pushes = [pb for pb in sorted(body) if pb in ev.sites and ev.sites[pb].callee[0] == "Vec::<T, A>::push" and any(x.op == "loop" and x.a[0] == hdr and x.a[1] == loc for x in subterms(ev.sites[pb].args[0]))]
+        # the search compares the stored message with the current one
+        cmp_ok = nm.endswith("contains")
+        key_term = s.args[1] if cmp_ok else None
+        if not cmp_ok:
+            body_t = G.apply_closure(P, s.args[1], [])
+            fm = G.formula(body_t, P) if body_t is not None else None
+            if fm is not None and fm[0] == "atom" and fm[1] == "eq":
+                sides = [fm[2], fm[3]]
+                elem = [x for x in sides if any(y.op == "param" and y.a[0] >= 2 for y in subterms(x))]
+                cur = [x for x in sides if not any(y.op == "param" and y.a[0] >= 2 for y in subterms(x))]
+                if len(elem) == 1 and len(cur) == 1:
+                    cmp_ok = True
+                    key_term = cur[0]
+        if not cmp_ok or not pushes:
+            continue
+        every = all(any(cfg.dominates(pb, sb) for pb in pushes) for sb in latches)
+        sv = strip_sites(s.value)
+        controls = any(any((x is sv or x == sv) for x in subterms(strip_sites(atom[2]))) for e in errs for atom, pol in G.path_literals(ev, e, P, checks_only=True) if atom[0] == "atom" and len(atom) > 2 and hasattr(atom[2], "op"))
+        srcs = [R.covers_all(sr, "pks") for _, sr in R.loop_sources(f)]
+        key_nf = B.nf(ev, key_term) if key_term is not None else []
+        from_elem = key_term is not None and any(x.op == "call" and B.cname(x) == "Iterator::next" for x in subterms(strip_sites(key_term))) or (key_term is not None and any(x.op == "field" and x.a[0].op == "downcast" for x in subterms(strip_sites(key_term))))
+        ctx.ob("E4.unique", fk + "/insert", bool(from_elem) and every and controls and srcs == ["all"], "uniqueness by scanning the accepted entries with %s: current message from the entry=%s, every accepted entry is pushed to the scanned vector=%s, a hit leaves through Err=%s, loop covers %s; compared value = %s" % (nm, bool(from_elem), every, controls, srcs, B.show_nf(key_nf)), where=where(f, b), sample={"key": B.show_nf(key_nf)})
+        msg_only = _key_is_message(key_nf)
+        ctx.ob("E4.unique", fk + "/key", msg_only, "the value compared is exactly the entry's message bytes: %s" % B.show_nf(key_nf), where=where(f, b), weak=not msg_only and B.is_strong(key_nf) is False)
+        allow[(fk, nm.split("::")[-1])] = "the search over the accepted entries is the uniqueness mechanism (validated by E4.unique)"
+        return True
+    return False
 
 
 _BYTES_IDENTITY = ("slice::<impl [T]>::to_vec", "ToOwned::to_owned", "Clone::clone", "AsRef::as_ref", "Deref::deref", "Borrow::borrow", "Into::into", "From::from", "Vec::<T, A>::as_slice", "Cow::<'_, B>::into_owned", "Box::<T>::from", "Iterator::collect", "slice::<impl [T]>::iter", "Iterator::copied", "Iterator::cloned", "IntoIterator::into_iter", "Vec::<T>::from_iter", "FromIterator::from_iter", "slice::<impl [T]>::into_vec")
